@@ -10,6 +10,7 @@ drv_proto, life ops (C11; not verified, exercised on every line):
 tokens (<r> = s sent | e eof | h hook raised, close_catchall off | H hook raised, close_catchall on):
   cb            closeBegin (also closeAgain)        ce<r>           closeEnd
   rc            recvClose                           es<r>           eofInServe
+  fn<s>         failSendNested: request s, made while a response was being delivered, cannot be written
   fq<s>         failSendRequest of request s        fr<T|F><r>      failSendReply (result by reference?)
   sx<r>         serveAllExit                        is<s>:<T|F>     issue request s (by-reference argument?)
   w<s>:<T|F><r> wait for s (own timeout expired?)   rp<s>:<v>       reply to s with payload v received
@@ -44,6 +45,7 @@ def parseLifeEv (tok : String) : Option Ev :=
   | ['c', 'e', r] => (parseTryRes r).map .closeEnd
   | ['r', 'c'] => some .recvClose
   | ['e', 's', r] => (parseTryRes r).map .eofInServe
+  | 'f' :: 'n' :: cs => (parseNatChars cs).map (fun s => .failSendNested s .eof)
   | 'f' :: 'q' :: cs => (parseNatChars cs).map .failSendRequest
   | ['f', 'r', b, r] => match parseTF b, parseTryRes r with
     | some b, some r => some (.failSendReply b r)
